@@ -32,7 +32,7 @@ use futures::{FutureExt, StreamExt};
 use litep2p::{
     protocol::notification::{
         verif::{VerifNotification, VerifServiceCall},
-        NotificationError, NotificationEvent, NotificationHandle, ValidationResult,
+        NotificationError, NotificationEvent, NotificationHandle, NotificationSink, ValidationResult,
     },
     PeerId,
 };
@@ -60,6 +60,7 @@ struct Io {
     werr: bool,
     flush_open: bool,
     dropped: bool,
+    shutdown_gated: bool,
     written: Vec<u8>,
 }
 
@@ -113,7 +114,11 @@ impl AsyncWrite for Carrier {
         }
     }
     fn poll_shutdown(self: Pin<&mut Self>, _: &mut Context<'_>) -> Poll<io::Result<()>> {
-        Poll::Ready(Ok(()))
+        if self.0 .0.lock().unwrap().shutdown_gated {
+            Poll::Pending
+        } else {
+            Poll::Ready(Ok(()))
+        }
     }
 }
 
@@ -148,13 +153,20 @@ fn frames_of(bytes: &[u8]) -> Vec<u64> {
 struct World {
     peers: Vec<PeerId>,
     notif: VerifNotification,
-    handle: NotificationHandle,
+    /// `None` once the user has dropped it
+    handle: Option<NotificationHandle>,
+    /// clones of the sinks the user was given (the notification queues stay open when the handle goes)
+    keep: Vec<NotificationSink>,
+    exited: bool,
     connected: [Option<usize>; NP],
     next_conn: usize,
     pending_sids: [VecDeque<usize>; NP],
     carriers: Vec<Ctl>,
     /// peer and direction (inbound?) of every carrier
     roles: Vec<(usize, bool)>,
+    /// carriers that were handed to a Connection task (generator: only those get a slow close)
+    task_cars: Vec<usize>,
+    registered: [bool; NP],
 }
 
 enum Outcome {
@@ -170,12 +182,16 @@ impl World {
         World {
             peers,
             notif,
-            handle,
+            handle: Some(handle),
+            keep: Vec::new(),
+            exited: false,
             connected: [None; NP],
             next_conn: 0,
             pending_sids: Default::default(),
             carriers: Vec::new(),
             roles: Vec::new(),
+            task_cars: Vec::new(),
+            registered: [false; NP],
         }
     }
 
@@ -197,12 +213,16 @@ impl World {
     }
 
     fn user_event(&mut self) -> Vec<u64> {
-        match self.handle.next().now_or_never() {
+        let Some(handle) = self.handle.as_mut() else { return vec![0] };
+        match handle.next().now_or_never() {
             Some(Some(ev)) => match ev {
                 NotificationEvent::ValidateSubstream { peer, handshake, .. } => {
                     vec![1, self.pidx(&peer), tag_of(&handshake)]
                 }
                 NotificationEvent::NotificationStreamOpened { peer, direction, handshake, .. } => {
+                    if let Some(sink) = self.handle.as_ref().and_then(|h| h.notification_sink(peer)) {
+                        self.keep.push(sink);
+                    }
                     let d = format!("{direction:?}").starts_with("Outbound") as u64;
                     vec![2, self.pidx(&peer), d, tag_of(&handshake)]
                 }
@@ -233,14 +253,31 @@ impl World {
             out.extend(st);
             let (i, o) = self.notif.negotiating(&peer);
             out.extend([i as u64, o as u64]);
-            out.push(self.handle.verif_is_open(&peer) as u64);
-            out.push(self.handle.verif_validation_pending(&peer) as u64);
+            out.push(self.handle.as_ref().map_or(false, |h| h.verif_is_open(&peer)) as u64);
+            out.push(self.handle.as_ref().map_or(false, |h| h.verif_validation_pending(&peer)) as u64);
+        }
+        for p in 0..NP {
+            let open = self.notif.peer_state(&self.peers[p])[0] == 7;
+            if open && !self.registered[p] {
+                // a Connection was started over the newest live substreams of the peer
+                for inbound in [true, false] {
+                    // (the local handshake has been written on them: a substream still waiting in the event
+                    // channel of the transport has seen no write)
+                    if let Some(i) = (0..self.carriers.len()).rev().find(|i| {
+                        let c = self.carriers[*i].0.lock().unwrap();
+                        self.roles[*i] == (p, inbound) && !c.dropped && !c.written.is_empty()
+                    }) {
+                        self.task_cars.push(i);
+                    }
+                }
+            }
+            self.registered[p] = open;
         }
         out.push(self.notif.negotiation_len() as u64);
         let (spawned, alive) = self.notif.tasks();
         out.extend([spawned as u64, alive as u64]);
         out.push(self.notif.pending_outbound().len() as u64);
-        out.push(self.handle.verif_event_queue_len() as u64);
+        out.push(self.handle.as_ref().map_or(0, |h| h.verif_event_queue_len()) as u64);
         let calls = self.notif.take_service_calls();
         out.push(calls.len() as u64);
         for c in calls {
@@ -318,7 +355,9 @@ impl World {
                         0 => s.read_buf.extend(frame(t)),
                         1 => s.eof = true,
                         2 => s.werr = true,
-                        _ => s.flush_open = true,
+                        3 => s.flush_open = true,
+                        4 => s.shutdown_gated = true,
+                        _ => s.shutdown_gated = false,
                     }
                 }
                 out.push(0);
@@ -329,23 +368,44 @@ impl World {
                     return None;
                 }
                 ran[2] = order;
-                out.push(self.notif.poll_event().is_some() as u64);
+                // once next_event has returned `true` the event loop is over: nothing polls it any more
+                let r = if self.exited {
+                    0
+                } else {
+                    match self.notif.poll_event() {
+                        None => 0,
+                        Some(false) => 1,
+                        Some(true) => {
+                            self.exited = true;
+                            2
+                        }
+                    }
+                };
+                out.push(r);
             }
             7 => {
-                let r = self.handle.open_substream(self.peers[p]).now_or_never();
+                let r = self.handle.as_ref().map(|h| h.open_substream(self.peers[p]).now_or_never());
                 out.push(match r {
-                    Some(Ok(())) => 0,
-                    Some(Err(_)) => 1,
-                    None => 8,
+                    None | Some(Some(Ok(()))) => 0,
+                    Some(Some(Err(_))) => 1,
+                    Some(None) => 8,
                 });
             }
             8 => {
-                let _ = self.handle.close_substream(self.peers[p]).now_or_never();
+                if let Some(h) = self.handle.as_ref() {
+                    let _ = h.close_substream(self.peers[p]).now_or_never();
+                }
                 out.push(0);
             }
             9 => {
                 let r = if b == 0 { ValidationResult::Reject } else { ValidationResult::Accept };
-                self.handle.send_validation_result(self.peers[p], r);
+                if let Some(h) = self.handle.as_mut() {
+                    h.send_validation_result(self.peers[p], r);
+                }
+                out.push(0);
+            }
+            13 => {
+                self.handle = None;
                 out.push(0);
             }
             10 => out.push(self.notif.poll_tasks() as u64),
@@ -354,12 +414,13 @@ impl World {
                 out.extend(e);
             }
             _ => {
-                let r = self.handle.send_sync_notification(self.peers[p], frame(b)[1..].to_vec());
+                let peer = self.peers[p];
+                let r = self.handle.as_mut().map(|h| h.send_sync_notification(peer, frame(b)[1..].to_vec()));
                 out.push(match r {
-                    Ok(()) => 0,
-                    Err(NotificationError::NoConnection) => 1,
-                    Err(NotificationError::ChannelClogged) => 2,
-                    Err(_) => 9,
+                    None | Some(Ok(())) => 0,
+                    Some(Err(NotificationError::NoConnection)) => 1,
+                    Some(Err(NotificationError::ChannelClogged)) => 2,
+                    Some(Err(_)) => 9,
                 });
             }
         }
@@ -390,8 +451,8 @@ pub fn well_formed(c: &[u64]) -> bool {
     let mut tags = std::collections::HashSet::new();
     c[3..].chunks(4).all(|o| match o[0] {
         0..=4 | 7 | 8 | 9 => o[1] < NP as u64,
-        5 => o[1] < 4096 && o[2] < 4 && o[3] < 60000 && (o[2] != 0 || tags.insert(o[3])),
-        6 | 10 | 11 => true,
+        5 => o[1] < 4096 && o[2] < 6 && o[3] < 60000 && (o[2] != 0 || tags.insert(o[3])),
+        6 | 10 | 11 | 13 => true,
         12 => o[1] < NP as u64 && o[2] < 60000 && tags.insert(o[2]),
         _ => false,
     })
@@ -466,7 +527,7 @@ impl Gen {
         let cin = Self::live(w, p, true);
         let cout = Self::live(w, p, false);
         let poll = [6, 0, 0, 0];
-        let val = w.handle.verif_validation_pending(&w.peers[p]);
+        let val = w.handle.as_ref().map_or(false, |h| h.verif_validation_pending(&w.peers[p]));
         match st[0] {
             0 => {
                 if w.connected[p].is_none() {
@@ -559,6 +620,14 @@ impl Gen {
                         Some(c) => [5, c, 2, 0],
                         None => poll,
                     },
+                    // closing a substream takes a while
+                    93..=95 => {
+                        if w.task_cars.is_empty() {
+                            poll
+                        } else {
+                            [5, w.task_cars[self.rng.below(w.task_cars.len() as u64) as usize] as u64, 4, 0]
+                        }
+                    }
                     _ => poll,
                 }
             }
@@ -607,7 +676,7 @@ impl Gen {
             44..=49 => [7, pu, 0, 0],
             50 => [8, pu, 0, 0],
             51..=59 => {
-                if w.handle.verif_validation_pending(&w.peers[p]) {
+                if w.handle.as_ref().map_or(false, |h| h.verif_validation_pending(&w.peers[p])) {
                     [9, pu, self.rng.chance(85) as u64, 0]
                 } else {
                     [11, 0, 0, 0]
@@ -658,14 +727,25 @@ impl Gen {
                 let t = self.fresh();
                 [12, pu, t, 0]
             }
-            95..=96 => [1, pu, 0, 0],
+            95 => [1, pu, 0, 0],
+            96 => {
+                if self.rng.chance(12) {
+                    [13, 0, 0, 0]
+                } else {
+                    [10, 0, 0, 0]
+                }
+            }
             _ => {
                 // any carrier, also a dropped one
                 if w.carriers.is_empty() {
                     [6, 0, 0, 0]
                 } else {
                     let c = self.rng.below(w.carriers.len() as u64);
-                    let what = self.rng.below(4);
+                    let mut what = self.rng.pick(&[0u64, 1, 2, 3, 4, 5, 5, 5]);
+                    if what == 4 && !w.task_cars.contains(&(c as usize)) {
+                        // a slow close inside a protocol handler parks the event loop (C11's subject)
+                        what = 5;
+                    }
                     let t = if what == 0 { self.fresh() } else { 0 };
                     [5, c, what, t]
                 }
